@@ -188,7 +188,9 @@ def run_threaded(ctx):
         "scenarios": len(final), "skipped": [list(k) + [w] for (k, w) in skipped],
         "impl_never": sorted(map(list, observed_never)), "impl_late": sorted(map(list, observed_late)),
         "model_ascoded_never": sorted(map(list, MODEL_NEVER)), "model_ascoded_late": sorted(map(list, MODEL_LATE)),
-        "agreement_with_EvLoop_AsCoded": observed_never == MODEL_NEVER and observed_late == MODEL_LATE,
+        # which design model the implementation behaves like on this matrix
+        "matches_model": ("EvLoop AsCoded" if (observed_never == MODEL_NEVER and observed_late == MODEL_LATE) else
+                          "EvLoop Repaired" if (not observed_never and not observed_late) else "neither"),
         "elapsed_ms": {"%s.%s.%s" % j["key"]: j.get("elapsed_ms") for j in final if j.get("result") == "c07"},
     }
     ok = [j for j in final if j.get("result") == "c07" and j["completed"]]
